@@ -29,5 +29,6 @@ abab8b4 C09
 e63f1ed C10
 d268278 C18
 d6544d3 C16
+aae3e83 C20
 LIST
 git -C /repo worktree prune
